@@ -430,8 +430,10 @@ def detect_cfg():
     cfg["localOp"] = ok(lambda: list(T(columns=["a", "b"]).insert([[1, 1], [2, 2]]).where(a={"<": 0}, b=1)) == [(1, 1)])
     cfg["guardEmpty"] = ok(lambda: list(T(columns=["a"]).index("a").where(a=1)) == [])
     cfg["dedupIdx"] = ok(lambda: list(T(columns=["a", "b"]).insert([[2, "x"], [1, "y"], [3, "z"]]).index("a", "a")) == [(1, "y"), (2, "x"), (3, "z")])
-    cfg["missingLe"] = ok(lambda: (M <= 1) is False and (1 <= M) is True and (M >= 1) is True and (1 >= M) is False)
+    cfg["missingLe"] = ok(lambda: list(T(columns=["a"]).insert([[1], [M], [3]]).where(a={"<=": 1})) == [(1,)])
+    cfg["missingGe"] = ok(lambda: len(list(T(columns=["a"]).insert([[1], [M], [3]]).where(a={">=": 3}))) == 2)
     cfg["matchEmpty"] = ok(lambda: list(T(columns=["a"]).where(a={"match": 1})) == [] and list(T(columns=["a"]).where(a={"match": "x"})) == [])
+    cfg["dictLen"] = ok(lambda: len(list(T(columns=["a"]).insert([{}, {}]))) == 2)
     _CFG.update(cfg)
     return _CFG
 
@@ -575,7 +577,7 @@ class Runner:
             self.fail("op #%d insert did not return the table" % n, "insert:return")
         if got != exp or set(cols2) != set(allcols) or len(cols2) != len(allcols):
             sig = "insert:rows-differ"
-            if sh == "dicts" and payload and all(len(d) == 0 for d in payload):
+            if sh == "dicts" and payload and all(len(d) == 0 for d in payload) and not self.cfg["dictLen"]:
                 sig = "insert-all-empty-dicts"
             self.fail("op #%d insert(%s): table holds %s (columns %s) but previous rows + inserted rows are %s (columns %s)"
                       % (n, sh, rows2[:12], cols2, expect[:12], allcols), sig)
@@ -585,6 +587,8 @@ class Runner:
         self.tags.append("index:%d" % len(req))
         if len(set(req)) < len(req):
             self.tags.append("index:duplicate-columns")
+        dup = len(set(req)) < len(req) and not self.cfg["dedupIdx"]     # repeated names are a known trigger only in a tree without the repair
+        req = list(dict.fromkeys(req))
         try:
             r = t.index(*op["cols"])
         except Exception as e:  # noqa
@@ -612,7 +616,6 @@ class Runner:
         except Exception as e:  # noqa
             self.fail("op #%d: table cannot be listed after index: %r" % (n, e), "index:list-raised")
             return
-        dup = len(set(req)) < len(req)
         if r is not t:
             self.fail("op #%d index did not return the table" % n, "index:return")
         if sorted(canon_rows(cols2, rows2)) != sorted(canon_rows(cols, rows)):
@@ -675,9 +678,9 @@ class Runner:
                             n_lt(p, q)
                 except Undefined:
                     f["incomparable_probe"] = True
-            else:
-                if o in ("<=", ">=") and (any(is_missing(c) for c in cells) or any(is_missing(p) for p in probes)):
-                    f["le_ge_missing"] = True
+            if o in ("<=", ">=") and (any(is_missing(c) for c in cells) or any(is_missing(p) for p in probes)):
+                f["le_ge_missing"] = True
+            if not bis:
                 if o == "match":
                     kinds = {("num" if is_num(c) else "str" if isinstance(c, str) else "null") for c in cells}
                     if len(kinds) > 1 or kinds == {"null"}:
@@ -685,29 +688,36 @@ class Runner:
         return f
 
     def where_sig(self, f, outcome):
-        if f.get("dupidx"):
+        """signature of a failing where: the first known defect of the tree under test (cfg) that the call can trigger
+        and that explains the kind of outcome; otherwise operator / path / outcome"""
+        cfg = self.cfg
+        if f.get("dupidx") and not cfg["dedupIdx"]:
             return "where-after-duplicate-index-columns"
         if f.get("stale"):
             return "where-on-stale-index"
         if f["empty"] and outcome == "raised:IndexError":
-            if "bisect" in f["paths"]:
+            if "bisect" in f["paths"] and not cfg["guardEmpty"]:
                 return "where-empty-indexed-IndexError"
-            if "match" in f["ops"]:
+            if "match" in f["ops"] and not cfg["matchEmpty"]:
                 return "where-match-empty-IndexError"
-        if f.get("leak"):
+        if f.get("leak") and not cfg["localOp"]:
             return "where-operator-leaks-to-later-keyword"
-        if f.get("notin_dict"):
+        if f.get("notin_dict") and not cfg["notinKey"]:
             return "where-dict-notin-not-unpacked"
-        if f.get("dup_probes"):
-            return "where-in-duplicate-probes-indexed"
-        if f.get("incomparable_probe") and outcome == "raised:TypeError":
-            return "where-indexed-incomparable-probe-TypeError"
-        if f.get("none_probe"):
-            return "where-indexed-none-probe"
-        if f.get("le_ge_missing") and outcome == "raised:TypeError":
-            return "where-le-ge-missing-scan-TypeError"
-        if f.get("match_mixed"):
-            return "where-match-mixed-column:" + outcome.split(":")[0]
+        if outcome == "rows":
+            if f.get("dup_probes") and not cfg["dedupIn"]:
+                return "where-in-duplicate-probes-indexed"
+            if f.get("none_probe"):
+                return "where-indexed-none-probe"
+            if f.get("match_mixed"):
+                return "where-match-mixed-column:rows"
+        if outcome == "raised:TypeError":
+            if f.get("le_ge_missing") and not (cfg["missingLe"] and cfg["missingGe"]):
+                return "where-le-ge-missing-scan-TypeError"
+            if f.get("incomparable_probe"):
+                return "where-indexed-incomparable-probe-TypeError"
+            if f.get("match_mixed"):
+                return "where-match-mixed-column:raised"
         return "where:%s:%s:%s" % ("+".join(f["ops"]), "+".join(f["paths"]), outcome)
 
     def do_where(self, n, op, t, tables, cols, rows, idx):
@@ -815,7 +825,7 @@ class Runner:
         if isinstance(s, list) and any(c not in cols for c in s):
             return
         ks = idx[:level]
-        dup = len(set(idx)) < len(idx)
+        dup = len(set(idx)) < len(idx) and not self.cfg["dedupIdx"]
         srt = sorted_by(cols, idx, rows)
         if srt is None:
             return
@@ -984,13 +994,20 @@ class Gen:
             o = r.choice(OPS)
             if o == "match":
                 return {"d": [o, {"v": self.matcharg(col)}]}
-            return {"d": [o, self.argv(col, o in ("in", "!in"))]}
+            return {"d": [o, self.ordarg(col, o)]}
         # plain value: must fit the positional comparison
         if pos is None:
             return self.argv(col, r.chance(0.4))
         if pos == "match":
             return {"v": self.matcharg(col)}
-        return self.argv(col, pos in ("in", "!in"))
+        return self.ordarg(col, pos)
+
+    def ordarg(self, col, o):
+        """value for operator o; order comparisons *with* Missing / None say nothing (see assumptions) and are left out"""
+        a = self.argv(col, o in ("in", "!in"))
+        while o in ("<", "<=", ">", ">=") and a["v"][0] in ("m", "n"):
+            a = self.argv(col, False)
+        return a
 
     def matcharg(self, col):
         r = self.r
@@ -1059,7 +1076,11 @@ class Gen:
             live = [i for i, t in enumerate(tabs) if not t["dead"]]
             if not live:
                 break
-            ti = r.choice(live[-3:]) if r.chance(0.5) else r.choice(live)
+            bases = [i for i in live if not tabs[i]["view"]]
+            if bases and r.chance(0.55):
+                ti = r.choice(bases)
+            else:
+                ti = r.choice(live[-3:]) if r.chance(0.5) else r.choice(live)
             t = tabs[ti]
             x = r.below(100)
             if t["view"]:
@@ -1146,6 +1167,111 @@ def W(t, pos=None, **kw):
 
 def IX(t, *cols):
     return {"op": "index", "t": t, "cols": list(cols)}
+
+
+def plain_snippet(case):
+    """the case as a plain script against coba (no harness): prints every table / result"""
+    def lit(c):
+        t = c[0]
+        return {"n": "None", "m": "Missing"}.get(t) or (repr(c[1]) if t in "is" else repr(c[1] / c[2]))
+
+    def av(a):
+        if "v" in a:
+            return lit(a["v"])
+        inner = ", ".join(lit(x) for x in a["l"])
+        k = a.get("as", "list")
+        return "(%s,)" % inner if k == "tuple" and a["l"] else "()" if k == "tuple" else ("{%s}" % inner if k == "set" and a["l"] else "set()" if k == "set" else "[%s]" % inner)
+
+    def cp(p, x="c"):
+        if "eq" in p:
+            return "%s == %s" % (x, lit(p["eq"]))
+        if "in" in p:
+            return "%s in [%s]" % (x, ", ".join(lit(v) for v in p["in"]))
+        if "ismissing" in p:
+            return "%s is Missing" % x
+        if "isnone" in p:
+            return "(%s is None and %s is not Missing)" % (x, x)
+        if "const" in p:
+            return repr(bool(p["const"]))
+        return "not (%s)" % cp(p["not"], x)
+
+    def rp(p, cols):
+        if "cell" in p:
+            return "(%s)" % cp(p["cell"][1], "r[%d]" % cols.index(p["cell"][0]))
+        k = "or" if "or" in p else "and"
+        return "(%s %s %s)" % (rp(p[k][0], cols), k, rp(p[k][1], cols))
+    out = ["import sys; sys.path.insert(0, '/repo')", "from coba.results.core import Table, Missing", ""]
+    init = case["init"]
+    if init["kind"] == "columns":
+        out.append("t0 = Table(columns=%r)" % (list(init["columns"]),))
+    else:
+        d = "{%s}" % ", ".join("%r: [%s]" % (c, ", ".join(lit(x) for x in v)) for c, v in init["data"])
+        out.append("t0 = Table(%s%s)" % (d, ", columns=%r" % (list(init["columns"]),) if init["kind"] == "coldict_cols" else ""))
+    nt = 1
+    pl = plan(case)
+    for op, p in zip(case["ops"], pl):
+        k = op["op"]
+        if p["skip"]:
+            out.append("# skipped (%s on t%s: target is a view / shares mutated storage / does not exist)" % (k, op.get("t")))
+            if p["creates"]:
+                nt += 1
+            continue
+        t = "t%d" % op["t"]
+        if k == "insert":
+            if op["shape"] == "rows":
+                arg = "[%s]" % ", ".join("[%s]" % ", ".join(lit(x) for x in r) for r in op["rows"])
+            elif op["shape"] == "dicts":
+                arg = "[%s]" % ", ".join("{%s}" % ", ".join("%r: %s" % (c, lit(v)) for c, v in d) for d in op["rows"])
+            else:
+                arg = "{%s}" % ", ".join("%r: [%s]" % (c, ", ".join(lit(x) for x in v)) for c, v in op["cols"])
+            out.append("%s.insert(%s); print(list(%s))" % (t, arg, t))
+        elif k == "index":
+            out.append("%s.index(%s); print(%s.indexes, list(%s))" % (t, ", ".join(repr(c) for c in op["cols"]), t, t))
+        elif k == "copy":
+            out.append("t%d = %s.copy(); print(list(t%d))" % (nt, t, nt))
+            nt += 1
+        elif k == "groupby":
+            s = op.get("select")
+            s = "None" if s is None else repr(s) if isinstance(s, str) else repr(s["one"]) if "one" in s else repr(list(s["many"]))
+            out.append("print(list(%s.groupby(%d, %s)))" % (t, op["level"], s))
+        elif k == "where":
+            args = []
+            if op.get("pred"):
+                args.append("lambda r: %s  # r = row in the order of %s.columns" % (rp(op["pred"], _cols_at(case, op)), t))
+            elif op.get("pos"):
+                args.append("None")
+            if op.get("pos"):
+                args.append(repr(op["pos"]))
+            for c, a in op["kws"]:
+                if "f" in a:
+                    args.append("%s=lambda c: %s" % (c, cp(a["f"])))
+                elif "d" in a:
+                    args.append("%s={%r: %s}" % (c, a["d"][0], av(a["d"][1])))
+                else:
+                    args.append("%s=%s" % (c, av(a)))
+            if op.get("pred"):
+                out.append("t%d = %s.where(%s\n)" % (nt, t, ", ".join(args)))
+                out.append("print(list(t%d))" % nt)
+            else:
+                out.append("t%d = %s.where(%s); print(list(t%d))" % (nt, t, ", ".join(args), nt))
+            nt += 1
+    res = out[:4]
+    for line in out[4:]:
+        if line.startswith("#"):
+            res.append(line)
+        else:
+            res.append("try:\n    " + line.replace("\n", "\n    ") + "\nexcept Exception as e:\n    print(type(e).__name__, e)")
+    return "\n".join(res) + "\n"
+
+
+def _cols_at(case, op):
+    """columns of the target table of `op` (run the case up to there on the real code)"""
+    try:
+        k = case["ops"].index(op)
+        r = Runner({"init": case["init"], "ops": case["ops"][:k] + [{"op": "copy", "t": op["t"]}]}).run()
+        return [COLS[i] for i in r.obs[-1]["columns"]]
+    except Exception:  # noqa
+        return list(COLS)
 
 
 class C17(Property):
@@ -1320,12 +1446,7 @@ class C17(Property):
                 yield {"init": dict(init, data=[[c, v[:i] + v[i + 1:]] for c, v in init["data"]]), "ops": ops}
 
     def snippet(self, case):
-        return ("import sys, json; sys.path[:0] = ['/repo', '/verif/harness']\n"
-                "from props.c17 import Runner\n"
-                "case = json.loads(%r)\n"
-                "r = Runner(case).run()\n"
-                "for o in r.obs: print(o)\n"
-                "for f in r.fails: print('PROPERTY VIOLATED:', f['sig'], '--', f['what'])\n" % json.dumps(case))
+        return plain_snippet(case)
 
 
 PROPERTY = C17()
